@@ -606,6 +606,14 @@ class OpaqueTypes(Plugin):
                 r = self.type_for(re.sub(r'\s*[\*&]$', '', qt.replace('const ', '').strip()), unit)
                 if r: return r
         return None
+    def construct_expr(self, unit, n):
+        # copy of an opaque position (iterator modelled as a scalar)
+        t = n.get('type', {})
+        for qt in (t.get('desugaredQualType'), t.get('qualType')):
+            if qt:
+                r = self.type_for(qt.replace('const ', '').strip(), unit)
+                if r and not r.startswith('struct ') and len(unit.kids(n)) == 1: return unit.expr(unit.kids(n)[0])
+        return None
     def member_call(self, unit, n, me, base, args):
         # a method of an opaque library object: stub `<struct>__<method>(obj, args...)` (records by address) whose contract the spec supplies
         ct = self._ct(unit, base)
@@ -635,11 +643,16 @@ class OpaqueTypes(Plugin):
             ct = self._ct(unit, args[0]); fn = '%s__index' % ct[len('struct '):]
             unit.count_call(fn)
             return '(*%s(%s, %s))' % (fn, unit.addr_of(args[0]), unit.addr_of(args[1]) if unit.is_record_type(args[1]) else unit.expr(args[1]))
+        if rd.get('name') == 'operator=' and len(args) == 2 and self._scalar_it(unit, args[0]):
+            return '(%s = %s)' % (unit.expr(args[0]), unit.expr(args[1]))
         if rd.get('name') == 'operator->' and len(args) == 1 and self._scalar_it(unit, args[0]):
             return 'v_map_it_deref(%s)' % unit.expr(args[0])
         return None
     def member_access(self, unit, n, base_text):
         # it->second of an opaque map iterator: the mapped value lives behind a stub `<T> *v_map_it_second(it)`
+        if n.get('name') == 'first' and base_text.startswith('v_map_it_deref('):
+            unit.count_call('v_map_it_first')
+            return '(*v_map_it_first(%s))' % base_text[len('v_map_it_deref('):-1]
         if n.get('name') == 'second' and base_text.startswith('v_map_it_deref('):
             unit.count_call('v_map_it_second')
             return '(*v_map_it_second(%s))' % base_text[len('v_map_it_deref('):-1]
